@@ -35,6 +35,16 @@ OPTIONISH = ['-f', 'wl_surface', '--supress', '-l', 'x.log', '-r', '--run', '-g'
 
 def generate(seed, tier, index):
     rng = random.Random('%d/gen' % seed)
+    if tier == 'thorough' and index % 16 == 9:
+        # bonus (the claim stays sampling): ALL child/reader schedules of a tiny run-mode case
+        nconn = 1
+        per = [L.gen_conn_intents(seed, 0, rng.randint(1, 3), 'mixed')]
+        intents = L.interleave(rng, per, chatter_rate=0.3)
+        cfg = {'kind': 'exhaustive', 'nconn': 1, 'sides': [rng.choice(['client', 'server'])], 'dialect': L.pick_dialect(rng, 1),
+               'epoch_us': 0, 'suppress': False, 'nonewline': rng.random() < 0.3, 'chunks': [1 << 20],
+               'writes': [rng.choice([20, 40, 70, 1 << 20])], 'cap': rng.choice([16, 64, 65536]), 'status': rng.randrange(256),
+               'sched_seed': 0, 'prog': ['prog'], 'environ': dict(common.BASE_ENV)}
+        return {'prop': ID, 'seed': seed, 'config': cfg, 'intents': intents}
     nconn = rng.choice([1, 1, 2, 3])
     n = rng.randint(1, 40)
     per = [L.gen_conn_intents(seed, c, max(1, n // nconn), rng.choice(['mixed', 'churn', 'objects'])) for c in range(nconn)]
@@ -148,8 +158,46 @@ def display(rec):
             and not (k == 'err' and 'Ignoring stop matcher when stdin is used' in p)]
 
 
+def execute_exhaustive(sc):
+    """depth-first walk over every sequence of two-way baton decisions (child or reader next?)"""
+    stack = [[]]
+    total = None
+    n = 0
+    seen = set()
+    while stack and n < 4000:
+        prefix = stack.pop()
+        one = {'prop': ID, 'seed': sc['seed'], 'config': dict(sc['config'], kind='one', baton_script=list(prefix)), 'intents': sc['intents']}
+        r = execute(one)
+        n += 1
+        decisions = r.pop('decisions', [])
+        for i in range(len(prefix), len(decisions)):
+            if decisions[i][0] > 1:
+                alt = [d[1] for d in decisions[:i]] + [1 - decisions[i][1]]
+                if tuple(alt) not in seen:
+                    seen.add(tuple(alt))
+                    stack.append(alt)
+        if total is None:
+            total = r
+        else:
+            total['evals'] += r['evals']
+            total['nt_keys'] += r['nt_keys']
+            for k, v in r['counters'].items():
+                total['counters'][k] = total['counters'].get(k, 0) + v
+        if r['violations']:
+            total['violations'] = r['violations']
+            for v in total['violations']:
+                v['detail'] += ' [schedule %s of the exhaustive walk]' % ''.join(str(d[1]) for d in decisions)
+            break
+    total['counters']['exhaustive_schedule_walks'] = 1
+    total['counters']['exhaustive_schedules'] = n
+    total['sample'] = {'config': {k: v for k, v in sc['config'].items() if k != 'environ'}, 'schedules_walked': n}
+    return total
+
+
 def execute(sc):
     cfg = sc['config']
+    if cfg.get('kind') == 'exhaustive':
+        return execute_exhaustive(sc)
     V = common.Viol()
     st = L.build_stream(sc, rig.REPO)
     data = st.data
@@ -253,6 +301,7 @@ def execute(sc):
     digest = ra.rec.digest() + rb.rec.digest() + (rc.rec.digest() if rc is not None else 'deadlock')
     canon = ra.rec.digest(True) + rb.rec.digest(True) + (rc.rec.digest(True) if rc is not None else 'deadlock')
     return {'violations': V.list, 'counters': V.counters, 'nt_keys': [key] if nontrivial else [], 'inter_key': trace[:400],
+            'decisions': list(shim.baton.decisions) if shim is not None else [],
             'states': [], 'digest': digest, 'canon': canon, 'sim_us': st.world.now - st.world.epoch_us, 'evals': 3,
             'sample': {'prog': cfg['prog'], 'writes': cfg['writes'], 'cap': cfg['cap'], 'status': cfg['status'],
                        'baton_trace': trace[:80], 'bytes': len(data)}}
